@@ -57,7 +57,7 @@ def tableKidsOK (ty : Ty) (a : Attrs) (kids cols : List Box) : Bool :=
              kids.all (fun c => c.ty == .tableCaption || isTable c.ty) &&
              (kids.filter (fun c => isTable c.ty)).length == 1)) &&
   (!isTable ty || (kids.all (fun c => c.ty == .tableRowGroup) &&
-                   cols.all (fun g => g.ty == .tableColumnGroup && g.kids.all (fun c => c.ty == .tableColumn)))) &&
+                   cols.all (fun g => g.ty == .tableColumnGroup && (g.a.running || g.kids.all (fun c => c.ty == .tableColumn))))) &&
   (!(ty == .tableRowGroup) || kids.all (fun c => c.ty == .tableRow)) &&
   (!(ty == .tableRow) || kids.all (fun c => c.ty == .tableCell)) &&
   (!(ty == .tableColumnGroup) || kids.all (fun c => c.ty == .tableColumn)) &&
@@ -67,7 +67,10 @@ def tableKidsOK (ty : Ty) (a : Attrs) (kids cols : List Box) : Bool :=
 def cellSlots (r : Nat) (c : Box) : List (Nat × Nat) :=
   (List.range' r c.a.rowspan).flatMap fun y => (List.range' c.a.gridX c.a.colspan).map fun x => (y, x)
 
-def rowSlots (r : Nat) (row : Box) : List (Nat × Nat) := row.kids.flatMap (cellSlots r)
+/-- the cells of a row that the grid clauses look at (a running row is opaque) -/
+def rowCells (row : Box) : List Box := if row.a.running then [] else row.kids
+
+def rowSlots (r : Nat) (row : Box) : List (Nat × Nat) := (rowCells row).flatMap (cellSlots r)
 
 def groupSlotsFrom : Nat → List Box → List (Nat × Nat)
   | _, [] => []
@@ -83,7 +86,20 @@ def gridOK (ty : Ty) (kids : List Box) : Bool :=
   !(ty == .tableRowGroup) ||
     (nodup (groupSlotsFrom 0 kids) &&
      (groupSlotsFrom 0 kids).all (fun s => s.1 < kids.length) &&
-     kids.all (fun row => row.kids.all (fun c => c.a.colspan ≥ 1 && c.a.rowspan ≥ 1)))
+     kids.all (fun row => (rowCells row).all (fun c => c.a.colspan ≥ 1 && c.a.rowspan ≥ 1)))
+
+/-- weaker grid facts that hold even when a column-spanning cell runs into a row-spanning cell of an
+    earlier row (the case CSS 2.1 §17.5 leaves undefined): the first column of every cell is held by
+    that cell alone, and the cells of one row do not overlap each other -/
+def firstSlotsOK (kids : List Box) : Bool :=
+  let all := groupSlotsFrom 0 kids
+  let rec go : Nat → List Box → Bool
+    | _, [] => true
+    | r, row :: rows =>
+      (rowCells row).all (fun c => c.a.rowspan == 0 || c.a.colspan == 0 || (all.filter (· == (r, c.a.gridX))).length == 1) &&
+      nodup ((rowCells row).flatMap fun c => (List.range' c.a.gridX c.a.colspan).map fun x => (r, x)) &&
+      go (r + 1) rows
+  go 0 kids
 
 /-- all local clauses at one box -/
 def nodeOK (ty : Ty) (a : Attrs) (kids cols : List Box) : Bool :=
@@ -113,18 +129,23 @@ def nodeReasons (ty : Ty) (a : Attrs) (kids cols : List Box) : List String :=
   (if flexGridOK ty kids then [] else ["flex/grid container holds a child that is not block-level"]) ++
   (if kids.all (childAllowed ty a) then [] else ["child not allowed under this parent (table model / line box placement)"]) ++
   (if tableKidsOK ty a kids cols then [] else ["table wrapper / table / row group / row / column group has a wrong child"]) ++
-  (if gridOK ty kids then [] else ["two cells on the same grid slot, or a span is empty or leaves the row group"]) ++
+  (if gridOK ty kids then []
+   else if nodup (groupSlotsFrom 0 kids) then ["a cell span is empty or leaves the row group"]
+   else if firstSlotsOK kids then ["two cells on the same grid slot: a column-spanning cell runs into a row-spanning cell of an earlier row"]
+   else ["two cells on the same grid slot"]) ++
   (if isParent ty || kids.isEmpty then [] else ["non-parent box has children"])
 
 mutual
-  def reasons : Box → List String
-    | .mk ty a kids cols => if a.running then [] else nodeReasons ty a kids cols ++ reasonsList kids ++ reasonsList cols
-  def reasonsList : List Box → List String
+  /-- (element code of the offending box, reason) -/
+  def reasons : Box → List (Int × String)
+    | .mk ty a kids cols =>
+      if a.running then [] else (nodeReasons ty a kids cols).map (fun r => (a.el, r)) ++ reasonsList kids ++ reasonsList cols
+  def reasonsList : List Box → List (Int × String)
     | [] => []
     | k :: ks => reasons k ++ reasonsList ks
 end
 
-def rootReasons (b : Box) : List String :=
-  (if isBlockLevel b.ty && !isTable b.ty then [] else ["root box is not a block-level non-table box"]) ++ reasons b
+def rootReasons (b : Box) : List (Int × String) :=
+  (if isBlockLevel b.ty && !isTable b.ty then [] else [(b.a.el, "root box is not a block-level non-table box")]) ++ reasons b
 
 end WR.C09
